@@ -145,7 +145,7 @@ func noMember(d *TDesc, v reflect.Value, useTags bool) bool {
 			continue
 		}
 		fv := v.Field(i)
-		if f.Embedded && f.Tag == "" {
+		if f.Embedded { // with or without a tag: encoders and recomposer flatten it all the same
 			switch {
 			case f.Type.Kind == "struct":
 				if !noMember(f.Type, fv, useTags) {
@@ -503,6 +503,79 @@ func (c *c16Case) knownReasons() []string {
 	return out
 }
 
+// nestEmbedExplains: the outcome is the value with every EMBEDDED field left at its zero value — what
+// the recomposer makes of a tree in which NestEmbed wrote the embedded structs as members of their
+// own: its field index only knows them flattened, the members are ignored (C16-nest-embed).
+func (c *c16Case) nestEmbedExplains(got string) bool {
+	cp := reflect.New(c.d.RT).Elem()
+	ok := true
+	func() {
+		defer func() {
+			if recover() != nil {
+				ok = false
+			}
+		}()
+		copyWithoutEmbedded(cp, c.v)
+	}()
+	if !ok {
+		return false
+	}
+	w := normValue(c.d, cp, c.tagsUsed())
+	if c.route == "oj" {
+		w = ifaceFloats(w)
+	}
+	return w == got
+}
+
+func copyWithoutEmbedded(dst, src reflect.Value) {
+	switch src.Kind() {
+	case reflect.Ptr:
+		if !src.IsNil() {
+			p := reflect.New(src.Type().Elem())
+			copyWithoutEmbedded(p.Elem(), src.Elem())
+			dst.Set(p)
+		}
+	case reflect.Interface:
+		if !src.IsNil() {
+			e := reflect.New(src.Elem().Type()).Elem()
+			copyWithoutEmbedded(e, src.Elem())
+			dst.Set(e)
+		}
+	case reflect.Slice:
+		if !src.IsNil() {
+			s := reflect.MakeSlice(src.Type(), src.Len(), src.Len())
+			for i := 0; i < src.Len(); i++ {
+				copyWithoutEmbedded(s.Index(i), src.Index(i))
+			}
+			dst.Set(s)
+		}
+	case reflect.Array:
+		for i := 0; i < src.Len(); i++ {
+			copyWithoutEmbedded(dst.Index(i), src.Index(i))
+		}
+	case reflect.Map:
+		if !src.IsNil() {
+			m := reflect.MakeMap(src.Type())
+			for _, k := range src.MapKeys() {
+				e := reflect.New(src.Type().Elem()).Elem()
+				copyWithoutEmbedded(e, src.MapIndex(k))
+				m.SetMapIndex(k, e)
+			}
+			dst.Set(m)
+		}
+	case reflect.Struct:
+		for i := 0; i < src.NumField(); i++ {
+			f := src.Type().Field(i)
+			if f.Anonymous || !exported(f.Name) {
+				continue
+			}
+			copyWithoutEmbedded(dst.Field(i), src.Field(i))
+		}
+	default:
+		dst.Set(src)
+	}
+}
+
 // embPtrInUniverse: some struct type the recomposer meets (history included) embeds a pointer; before
 // /repo b19f06c a registration then panicked half way and left the registry partly filled.
 func (c *c16Case) embPtrInUniverse() bool {
@@ -687,6 +760,9 @@ func checkC16(d *lib.Driver, c *c16Case) error {
 		rep.Count("inverse.skipped_marshal_iface_struct", 1)
 	} else if norm0 != want {
 		reasons := c.knownReasons()
+		if c.spec.NestEmbed && c.route != "marshal" && c.nestEmbedExplains(norm0) {
+			reasons = []string{"C16-nest-embed"}
+		}
 		if len(reasons) == 1 && reasons[0] == "C16-registry-bare-name" && d != nil && !dataDriven && model[2] != "outside" && normTokens(model[2]) != want {
 			// the registry repair of the model does not explain it
 			reasons = nil
@@ -790,6 +866,9 @@ func genC16(r *lib.Rng, n int, emit func(*c16Case)) {
 		}
 		if r.Intn(4) == 0 {
 			spec.CreateKey, spec.FullTypePath = "type", r.Bool()
+		}
+		if r.Intn(10) == 0 {
+			spec.NestEmbed = true // the writers nest embedded structs, the recomposer only knows them flattened
 		}
 		var hist []histEvent
 		for k := r.Intn(4); k > 0; k-- {
@@ -908,21 +987,24 @@ func boundaryValues16(emit func(*c16Case)) {
 		{Name: "Right", Type: stringType, Tag: `json:"t_2"`},
 		{Name: "Up", Type: ty(uint64(0)), Tag: `json:"t_3,omitempty"`},
 	})
-	mid := func(ptr bool) reflect.Type {
+	mid := func(ptr bool, tags ...string) reflect.Type {
 		et := inner
 		if ptr {
 			et = reflect.PtrTo(inner)
 		}
+		tags = append(tags, "", "")
 		return reflect.StructOf([]reflect.StructField{
 			{Name: "Id", Type: ty(int64(0)), Tag: `json:"t_1"`},
 			{Name: "Mode", Type: boolType},
-			{Name: "Emb1", Type: et, Anonymous: true},
+			{Name: "Emb1", Type: et, Anonymous: true, Tag: reflect.StructTag(tags[0])},
 			{Name: "Name", Type: stringType},
-			{Name: "Emb2", Type: ty(pa.Leaf{}), Anonymous: true},
+			{Name: "Emb2", Type: ty(pa.Leaf{}), Anonymous: true, Tag: reflect.StructTag(tags[1])},
 			{Name: "Zed", Type: ty(uint8(0)), Tag: `json:",omitempty"`},
 		})
 	}
-	for ti, rt := range []reflect.Type{ty(pa.EmbMid{}), ty(pa.EmbTag{}), ty(pa.WideIn{}), ty(pa.Emb{}), mid(false), mid(true)} {
+	for ti, rt := range []reflect.Type{ty(pa.EmbMid{}), ty(pa.EmbTag{}), ty(pa.WideIn{}), ty(pa.Emb{}), mid(false), mid(true),
+		ty(pa.EmbTagged{}), ty(pa.EmbTaggedP{}), mid(false, `json:",inline"`, `json:"t_9"`), mid(true, `json:"t_8,omitempty"`, `json:",omitempty"`),
+		mid(true, `json:"-"`, `json:",inline"`)} {
 		d := mustDescribe(rt)
 		for k := 0; k < 6; k++ {
 			vg := &valGen{r: lib.NewRng(uint64(7000 + 10*ti + k)), c16: true, noNil: k%3 != 2}
